@@ -2148,6 +2148,9 @@ func (d *Data) setResolution(uuid dvid.UUID, jsonBytes []byte) error {
 	if err := json.Unmarshal(jsonBytes, &config); err != nil {
 		return err
 	}
+	if len(config) != 3 {
+		return fmt.Errorf("resolution must be a JSON array of 3 numbers, got %d", len(config))
+	}
 	d.Properties.VoxelSize = config
 	return datastore.SaveDataByUUID(uuid, d)
 }
